@@ -1249,7 +1249,8 @@ pub fn gen(a: &Args) {
         let first = run_case(a, &mut w, &sc, false);
         // second stream: the same script under a small memory limit, derived from what the first run
         // allocated in total (nothing is collected there), so that collections happen but most runs fit
-        let again = rng.chance(1, 3);
+        // host-built inputs always get the low-memory run (the class of finding F-1 and its rooted control)
+        let again = rng.chance(1, 3) || sc.job.input.is_some();
         let factor = *rng.pick(&[50u64, 70, 90, 110, 150, 200]);
         if again && w.len() < a.n {
             let base = if first.alloc > 0 { first.alloc as u64 } else { 8 * 1024 };
